@@ -510,6 +510,8 @@ pub fn eval_in_child(scn: &dyn Scenario, plan: &Value, seed: u64, run: u64) -> E
             }
         } else if let Some(rest) = line.strip_prefix("J ") {
             res.journal.push(rest.to_string());
+        } else if let Some(rest) = line.strip_prefix("JH ") {
+            res.journal_hash = u64::from_str_radix(rest.trim(), 16).unwrap_or(0);
         } else if let Some(rest) = line.strip_prefix("H ") {
             res.harness_error = Some(rest.to_string());
         }
@@ -550,6 +552,7 @@ pub fn exec_plan_main(scn: &dyn Scenario, file: &Value) -> i32 {
     for v in r.violations.iter() {
         let _ = writeln!(out, "V {}", serde_json::to_string(v).unwrap());
     }
+    let _ = writeln!(out, "JH {:016x}", r.journal_hash);
     if let Some(e) = r.harness_error {
         let _ = writeln!(out, "H {}", e);
         return 2;
@@ -562,18 +565,16 @@ fn is_crash_sig(sig: &str) -> bool {
 }
 
 fn reproduces(scn: &dyn Scenario, plan: &Value, seed: u64, run: u64, signature: &str) -> bool {
-    let r = if is_crash_sig(signature) {
-        eval_in_child(scn, plan, seed, run)
-    } else {
-        eval_in_process(scn, plan, seed, run, false)
-    };
+    // Always in a child process: the code under test may overflow the stack or abort, and that
+    // must never take the supervisor down.
+    let r = eval_in_child(scn, plan, seed, run);
     r.violations.iter().any(|v| v.signature == signature)
 }
 
 /// Delta debugging over `plan.steps` followed by scenario-specific simplifications.
 pub fn minimise(scn: &dyn Scenario, plan: &Value, seed: u64, run: u64, signature: &str) -> (Value, u64) {
     let budget_execs = 300u64;
-    let budget_time = Duration::from_secs(if is_crash_sig(signature) { 120 } else { 60 });
+    let budget_time = Duration::from_secs(if is_crash_sig(signature) { 60 } else { 30 });
     let start = Instant::now();
     let mut execs = 0u64;
     let mut best = plan.clone();
@@ -679,7 +680,7 @@ fn eval_if_cheap(scn: &dyn Scenario, plan: &Value, seed: u64, run: u64, sig: &st
     if is_crash_sig(sig) {
         Value::Null
     } else {
-        let r = eval_in_process(scn, plan, seed, run, false);
+        let r = eval_in_child(scn, plan, seed, run);
         Value::String(format!("{:016x}", r.journal_hash))
     }
 }
@@ -734,7 +735,7 @@ pub fn check_main(scn: &dyn Scenario, tier: Tier, seed: u64) -> i32 {
             continue;
         }
         own_new += 1;
-        if own_new > 8 {
+        if own_new > 4 {
             println!("VIOLATION property={} replay=- (further signature {} not minimised)", id, sig);
             continue;
         }
@@ -751,7 +752,7 @@ pub fn check_main(scn: &dyn Scenario, tier: Tier, seed: u64) -> i32 {
         // refresh message/step from the minimised plan
         let mut vv = viol.clone();
         if !is_crash_sig(sig) {
-            let r = eval_in_process(scn, &minplan, seed, run, false);
+            let r = eval_in_child(scn, &minplan, seed, run);
             if let Some(x) = r.violations.iter().find(|x| &x.signature == sig) {
                 vv = x.clone();
             }
@@ -852,11 +853,7 @@ pub fn replay_main(scn: &dyn Scenario, doc: &Value, path: &str) -> i32 {
     let run = doc["run"].as_u64().unwrap_or(0);
     let sig = doc["expect"]["signature"].as_str().unwrap_or("").to_string();
     let plan = &doc["plan"];
-    let r = if is_crash_sig(&sig) {
-        eval_in_child(scn, plan, seed, run)
-    } else {
-        eval_in_process(scn, plan, seed, run, true)
-    };
+    let r = eval_in_child(scn, plan, seed, run);
     for j in r.journal.iter() {
         println!("{}", j);
     }
